@@ -34,7 +34,6 @@ TYPES = [
     items("src/range_witness.rs", ["RangeWitness"]),
     items("src/extended_mask.rs", ["ExtendedMask"]),
     items("src/range_proof.rs", ["VerifyAction", "RangeProof", "MAX_RANGE_PROOF_BIT_LENGTH", "MAX_RANGE_PROOF_BATCH_SIZE"]),
-    text("spec/types_spec.rs"),
 ]
 
 EXT_TRYFROM = [
@@ -43,6 +42,12 @@ EXT_TRYFROM = [
     fns("src/generators/pedersen_gens.rs", "impl TryFrom<usize> for ExtensionDegree { type Error = ProofError;", "ExtensionDegree_usize",
         impl_filter="impl TryFrom<usize> for ExtensionDegree"),
 ]
+
+
+def types(ext="stub"):
+    """extracted type definitions + ExtensionDegree conversions (verified in unit ctors, contract assumed elsewhere) + spec-side facts"""
+    k = {"fns": ["try_from"]} if ext == "body" else {"stubs": ["try_from"]}
+    return TYPES + [with_fns(EXT_TRYFROM[0], **k), with_fns(EXT_TRYFROM[1], **k), text("spec/types_spec.rs")]
 
 
 def with_fns(piece, fns=None, stubs=None):
@@ -58,9 +63,7 @@ UNITS = {}
 UNITS["ctors"] = {
     "prelude": PRELUDE_ALL,
     "contracts": ["ctors.vc", "gens_stub.vc"],
-    "pieces": TYPES + [
-        with_fns(EXT_TRYFROM[0], fns=["try_from"]),
-        with_fns(EXT_TRYFROM[1], fns=["try_from"]),
+    "pieces": types("body") + [
         fns("src/commitment_opening.rs", "impl CommitmentOpening {", "CommitmentOpening", fns=["new", "r_len"]),
         fns("src/extended_mask.rs", "impl ExtendedMask {", "ExtendedMask", fns=["assign", "blindings"]),
         fns("src/range_witness.rs", "impl RangeWitness {", "RangeWitness", fns=["init"]),
@@ -75,4 +78,44 @@ UNITS["ctors"] = {
         text("spec/canaries_ctors.rs"),
     ],
     "safety": {"*": ["C17"], "compute_generator_padding": ["C16"]},
+}
+
+# ---------------------------------------------------------------- U4 + U5: transcript protocol and range-proof transcript
+RPT_ITEMS = [items("src/transcripts.rs", ["RangeProofTranscript"])]
+RPT_HEADER = "impl<'a, R: CryptoRngCore> RangeProofTranscript<'a, P, R> {"
+RPT_FNS = ["new", "challenges_y_z", "challenge_round_e", "challenge_final_e", "to_verifier_rng", "build_rng", "as_mut_rng"]
+RPT_OPAQUE = ["new=>let size : usize=>opaque_size(witness)"]
+TPROTO_FNS = ["append_domain_separator", "append_point", "validate_and_append_point", "append_scalar", "challenge_scalar"]
+TPROTO_HEADER = "impl TranscriptProtocol for Transcript {\n    open spec fn tlog(&self) -> Seq<TEvent> { self.log() }"
+
+UNITS["transcripts"] = {
+    "prelude": PRELUDE_ALL,
+    "contracts": ["transcripts.vc", "ctors.vc"],
+    "owns_text": ["spec/tproto_trait.rs"],
+    "pieces": types() + RPT_ITEMS + [
+        text("spec/tproto_trait.rs"),
+        text("spec/spec_transcript.rs"),
+        fns("src/protocols/transcript_protocol.rs", TPROTO_HEADER, "TranscriptProtocol", fns=TPROTO_FNS, impl_filter="impl TranscriptProtocol for Transcript"),
+        fns("src/transcripts.rs", RPT_HEADER, "RangeProofTranscript", fns=RPT_FNS, opaque=RPT_OPAQUE),
+        text("spec/canaries_transcripts.rs"),
+    ],
+    "safety": {"*": ["C04"]},
+}
+
+# ---------------------------------------------------------------- U6: nonce KDF and scalar protocol
+SPROTO_HEADER = "impl ScalarProtocol for Scalar {"
+UNITS["nonce"] = {
+    "prelude": PRELUDE_ALL,
+    "contracts": ["nonce.vc", "ctors.vc"],
+    "owns_text": ["spec/sproto_trait.rs"],
+    "pieces": types() + [
+        items("src/utils/generic.rs", ["BLAKE2B_PERSONA_LIMIT"]),
+        text("spec/sproto_trait.rs"),
+        text("spec/spec_mask.rs"),
+        fns("src/protocols/scalar_protocol.rs", SPROTO_HEADER, "ScalarProtocol", fns=["random_not_zero", "from_hasher_blake2b"],
+            impl_filter="impl ScalarProtocol for Scalar"),
+        fns("src/utils/generic.rs", None, None, fns=["encode_usize", "nonce"]),
+        text("spec/canaries_nonce.rs"),
+    ],
+    "safety": {"*": ["C09"], "nonce": ["C09", "C16"], "encode_usize": ["C09", "C16"]},
 }
